@@ -37,6 +37,7 @@ BACKENDS = [
     ("nanobind", "nanobind", []),
     # the same setting from two sources in two spellings: config.toml `[nanobind] lib-name` (kebab) and --config (snake)
     ("nanobind-libname-two-sources", "nanobind", ["--config", "nanobind.lib_name=vsimfromcli"]),
+    ("nanobind-libname-cli-kebab", "nanobind", ["--config", "nanobind.lib-name=vsimfromclikebab"]),
     ("kotlin-libname-two-sources", "kotlin", ["--config", "kotlin.lib_name=vsimfromcli", "--config", "kotlin.domain=dev.vsimcli"]),
     ("demo_gen", "demo_gen", []),
 ]
